@@ -1,9 +1,65 @@
 package main
 
+import (
+	"fmt"
+	"os"
+	"path/filepath"
+	"runtime"
+	"strconv"
+	"sync/atomic"
+	"time"
+)
+
+// watchdog: every case starts with NewRng(seed, index); if one case runs longer than VERIF_CASE_TIMEOUT seconds
+// (default 30) the harness writes <outdir>/hang.txt (index, seconds, the goroutine stacks) and exits with status 3,
+// so that a non-terminating implementation is reported with the case that triggers it instead of stalling the check.
+var wdIndex, wdStart atomic.Int64
+var wdDir atomic.Value
+var wdProg *os.File // <outdir>/progress.txt: index of the case being run (read by the check when the process dies)
+
+func startWatchdog(dir string) {
+	wdDir.Store(dir)
+	wdIndex.Store(-1)
+	wdProg, _ = os.Create(filepath.Join(dir, "progress.txt"))
+	limit := int64(30)
+	if v, err := strconv.Atoi(os.Getenv("VERIF_CASE_TIMEOUT")); err == nil && v > 0 {
+		limit = int64(v)
+	}
+	go func() {
+		for {
+			time.Sleep(500 * time.Millisecond)
+			i, t0 := wdIndex.Load(), wdStart.Load()
+			if i < 0 || t0 == 0 {
+				continue
+			}
+			if el := time.Now().Unix() - t0; el > limit && wdIndex.Load() == i {
+				buf := make([]byte, 1<<16)
+				buf = buf[:runtime.Stack(buf, true)]
+				os.WriteFile(filepath.Join(dir, "hang.txt"), []byte(fmt.Sprintf("index=%d seconds=%d\n%s", i, el, buf)), 0o644)
+				os.Exit(3)
+			}
+		}
+	}()
+}
+
 // splitmix64: every random choice of a case derives from (seed, case index).
 type Rng struct{ s uint64 }
 
 func NewRng(seed uint64, idx uint64) *Rng {
+	r := &Rng{s: seed*0x9E3779B97F4A7C15 + idx*0xBF58476D1CE4E5B9 + 0x94D049BB133111EB}
+	r.Next()
+	if wdDir.Load() != nil {
+		wdIndex.Store(int64(idx))
+		wdStart.Store(time.Now().Unix())
+		if wdProg != nil {
+			wdProg.WriteAt([]byte(fmt.Sprintf("%-12d", idx)), 0)
+		}
+	}
+	return r
+}
+
+// auxRng is a generator that does not mark the start of a case
+func auxRng(seed uint64, idx uint64) *Rng {
 	r := &Rng{s: seed*0x9E3779B97F4A7C15 + idx*0xBF58476D1CE4E5B9 + 0x94D049BB133111EB}
 	r.Next()
 	return r
@@ -25,4 +81,12 @@ func (r *Rng) Bool() bool        { return r.Next()&1 == 1 }
 func (r *Rng) Chance(p int) bool { return r.Intn(100) < p } // p percent
 func (r *Rng) Pick(xs []string) string {
 	return xs[r.Intn(len(xs))]
+}
+
+// noteInput records the input about to be given to the implementation (<outdir>/current.txt), so that a crash of the
+// whole process (stack exhaustion, fatal runtime error) can be reported together with the input that caused it.
+func noteInput(s string) {
+	if d, ok := wdDir.Load().(string); ok {
+		os.WriteFile(filepath.Join(d, "current.txt"), []byte(s), 0o644)
+	}
 }
